@@ -169,7 +169,7 @@ fn compare(i: u64, st: &mut Stats) -> CaseResult {
             // documented differences, decided from what the input contains, never from the outcome alone
             let r1 = !has_alloc(c) && has_alloc(r) && has_indef_container && SKIP_FAMILY.contains(&op) && is_err_class(cv, "msg");
             let r2 = !has_half(c) && has_half(r) && has_f9 && is_err_class(cv, "type");
-            let r3 = !has_alloc(c) && has_alloc(r) && ((op == "S:SAny" && has_indef_string && is_err_class(cv, "type")) || (op == "Z:collect_str" && is_err_class(cv, "ser")));
+            let r3 = !has_alloc(c) && has_alloc(r) && (((op == "S:SAny" || op == "S:SPicky") && has_indef_string && is_err_class(cv, "type")) || (op == "Z:collect_str" && is_err_class(cv, "ser")));
             if r1 { st.class("documented/no-alloc skip refuses indefinite-in-definite"); continue }
             if r2 { st.class("documented/no half: f16 item is a type error"); continue }
             if r3 { st.class("documented/no-alloc bridge: indefinite string or collect_str"); continue }
